@@ -1,29 +1,39 @@
 -------------------------------- MODULE Qha --------------------------------
 (* Quasi-harmonic analysis of phonopy (api_qha.PhonopyQHA, qha/core.py:       *)
-(* BulkModulus, QHA.__init__ / run / _set_...) as a step machine over per-    *)
-(* temperature tables with RATIONAL entries, and what C20 demands of it.      *)
+(* BulkModulus, QHA.__init__ / run / _set_... / write_...) as a step machine  *)
+(* over per-temperature tables with RATIONAL entries, and what C20 demands.   *)
 (*                                                                            *)
 (* Hypothesis of the property ("free energies that are exactly an equation of *)
 (* state in volume at every temperature"), as the inputs are built:           *)
-(*   El_j + P V u_PV           = Curve(qtab[j])   (j = 1 for shape "V")       *)
-(*   Ph_k u_Ph + Curve(qtab[e(k)]) = Curve(ptab[k]),  e(k) = k for "TV", 1 for "V" *)
+(*   El_j + P V u_PV           = Curve(qtab[j])   (only if x.elcurve)         *)
+(*   Ph_k u_Ph + El_e(k) + P V u_PV = Curve(ptab[k]),  e(k) = k for "TV", 1 for "V" *)
 (* Curve(p) is the EOS curve of Eos.tla with parameters p, u_PV and u_Ph the  *)
 (* conversion factors REQUIRED by the unit definitions (ReqPVUnit, ReqPhUnit).*)
 (*                                                                            *)
 (* The non-linear fit and the degree-4 polynomial fit are UNINTERPRETED:      *)
-(*   Fit(row) = p        if the row handed to the fit is exactly Curve(p),    *)
-(*   polyfit4 of data that are a polynomial of degree <= 4 returns it.        *)
+(*   Fit(row) = p        if the row handed to the fit is exactly Curve(p)     *)
+(*                       and the environment lets the fit converge,           *)
+(*   polyfit4 of data that are a polynomial of degree <= 4 on >= 5 distinct   *)
+(*   volumes returns it.                                                      *)
+(* What the fit does at each call is the ENVIRONMENT's choice, given with the *)
+(* input (x.bmplan for BulkModulus, x.fitplan per temperature):               *)
+(*   "ok" converged; "nonconv" leastsq returned a status outside 1..4;        *)
+(*   "runtimeerror" / "typeerror" the fit raised.                             *)
 (* A row is kept as a formal combination                                      *)
 (*   [ph |-> k, phunit, el |-> j, pvsign, pvunit]  =  Ph_k phunit + El_j + pvsign P V pvunit *)
 (* so "is exactly Curve(p)" is decided by cancellation (RowCurve).            *)
 (*                                                                            *)
+(* The machine describes the REPAIRED behaviour (fixes/c20-...): invalid      *)
+(* input is refused, a fit that did not converge is an error, a fit that      *)
+(* raised TypeError drops its temperature (docstring of QHA.run), number      *)
+(* types of the input arrays do not matter.                                   *)
 (* Index convention: 1-based (k = python index + 1).                          *)
 EXTENDS QhaJet
 
 CONSTANT Inputs      \* set of input records, see TypeInput
 
-VARIABLES pc, inp, elpv, bm, numElems, rows, fitted, vol, gibbs, bulk, beta, cp, cpfit, gru, len, status
-vars == <<pc, inp, elpv, bm, numElems, rows, fitted, vol, gibbs, bulk, beta, cp, cpfit, gru, len, status>>
+VARIABLES pc, inp, elpv, bm, numElems, rows, kept, fitted, vol, gibbs, bulk, beta, cp, cpfit, dsdv, gru, len, status
+vars == <<pc, inp, elpv, bm, numElems, rows, kept, fitted, vol, gibbs, bulk, beta, cp, cpfit, dsdv, gru, len, status>>
 
 Force(f) == f @@ <<>>          \* evaluate a function constructor once (TLC is lazy)
 
@@ -37,6 +47,7 @@ CodeBulkUnit == CodeEVAngstromToGPa         \* parameters[:, 1] * EVAngstromToGP
 CodeCpUnit == UMul(CodeEvTokJmol, Unit(0, 0, 3))           \* equiv_energies * EvTokJmol * 1000
 (* cv / v / 1000 / EvTokJmol * EVAngstromToGPa divides beta * kt[GPa] *)
 CodeGruUnit == UDiv(CodeBulkUnit, UMul(UInv(UMul(Unit(0, 0, 3), CodeEvTokJmol)), CodeEVAngstromToGPa))
+CodeDsdvUnit == Unit(0, -1, 21)             \* write_heat_capacity_P_polyfit: dsdv * 1e21 / Avogadro
 
 (* the same factors from the definitions of the units (SI): requirement side *)
 SIeV == Unit(1, 0, 0)             \* J
@@ -49,6 +60,7 @@ ReqPhUnit == UDiv(UMul(SIkJ, PerMol), SIeV)             \* kJ/mol -> eV per cell
 ReqBulkUnit == UDiv(UDiv(SIeV, SIA3), SIGPa)            \* eV/A^3 -> GPa
 ReqCpUnit == UDiv(SIeV, PerMol)                          \* eV/K per cell -> J/K/mol
 ReqGruUnit == ReqCpUnit            \* V beta K_T / C_V with C_V given in J/K/mol
+ReqDsdvUnit == UDiv(UDiv(PerMol, SIA3), SIGPa)          \* J/K/mol/A^3 -> GPa/K per cell
 
 -----------------------------------------------------------------------------
 (* polynomials with rational coefficients  c[1] + c[2] x + c[3] x^2 + ...    *)
@@ -63,13 +75,29 @@ NT(x) == Len(x.T)
 TT(x, k) == RInt(x.T[k])
 EIdx(x, k) == IF x.shape = "TV" THEN k ELSE 1
 PressureActs(x) == x.P.set /\ x.P.v # R0
+Ascending(x) == \A k \in 1..(NT(x) - 1) : x.T[k] < x.T[k + 1]
+Plans == {"ok", "nonconv", "runtimeerror", "typeerror"}
+(* what a caller may pass and must get a result for (given converging fits)  *)
+ValidInput(x) ==
+  /\ Ascending(x) /\ x.nvd >= 5
+  /\ x.shape = "TV" => Len(x.qtab) >= NT(x)
+AllFitsOk(x) == (\A i \in 1..NT(x) : x.fitplan[i] = "ok") /\ (\A j \in 1..Len(x.bmplan) : x.bmplan[j] = "ok")
+
+CvAt(x, k, v) == PolyEval(x.cvtab[k], RSub(v, RInt(x.vref)))
+DsDvAt(x, k, v) == PolyEval(PolyD(x.stab[k]), RSub(v, RInt(x.vref)))
 
 TypeInput(x) ==
-  /\ NT(x) >= 1 /\ \A k \in 1..(NT(x) - 1) : x.T[k] < x.T[k + 1]
-  /\ x.shape \in {"V", "TV"}
+  /\ NT(x) >= 1
+  /\ x.shape \in {"V", "TV"} /\ x.eldtype \in {"float", "int"} /\ x.voldtype \in {"float", "int"}
   /\ Len(x.ptab) = NT(x) /\ Len(x.cvtab) = NT(x) /\ Len(x.stab) = NT(x)
-  /\ Len(x.qtab) = IF x.shape = "TV" THEN NT(x) ELSE 1
+  /\ Len(x.fitplan) = NT(x) /\ \A i \in 1..NT(x) : x.fitplan[i] \in Plans
+  /\ Len(x.qtab) >= 1 /\ (x.shape = "V" => Len(x.qtab) = 1)
+  /\ Len(x.bmplan) = Len(x.qtab) /\ \A j \in 1..Len(x.qtab) : x.bmplan[j] \in Plans
+  /\ x.nvd >= 1
   /\ \A k \in 1..NT(x) : IsRat(x.ptab[k].V0) /\ IsRat(x.ptab[k].E0) /\ IsRat(x.ptab[k].B0)
+  (* heat capacities are either well above the 1e-10 cutoff of the Gruneisen routine or <= 0 *)
+  /\ \A k \in 1..NT(x) : LET c == CvAt(x, k, x.ptab[k].V0)
+                         IN  RLe(c, R0) \/ RLe(<<1, 1000>>, RDiv(c, x.ptab[k].V0))
   /\ x.poly.set => \A k \in 1..NT(x) :
         /\ x.ptab[k].V0 = PolyEval(x.poly.v, TT(x, k))
         /\ x.ptab[k].E0 = PolyEval(x.poly.e, TT(x, k))
@@ -80,8 +108,8 @@ PVMatches(x, r) == PressureActs(x) => (r.pvsign = 1 /\ r.pvunit = ReqPVUnit)
 (* index k such that the row is exactly Curve(ptab[k]); 0 if it is no such curve *)
 RowCurve(x, r) ==
   IF r.ph \in 1..NT(x) /\ r.phunit = ReqPhUnit /\ r.el = EIdx(x, r.ph) /\ PVMatches(x, r) THEN r.ph ELSE 0
-(* electronic row alone (BulkModulus): Curve(qtab[j]) *)
-ElCurve(x, r) == IF r.el \in 1..Len(x.qtab) /\ PVMatches(x, r) THEN r.el ELSE 0
+(* electronic row alone (BulkModulus): Curve(qtab[j]) if the electronic energies are curves at all *)
+ElCurve(x, r) == IF x.elcurve /\ r.el \in 1..Len(x.qtab) /\ PVMatches(x, r) THEN r.el ELSE 0
 
 ArgMinFirst(x) ==
   LET d(k) == IAbs(x.T[k] - x.tmax.v)
@@ -99,34 +127,43 @@ ParabolaDMid(t1, t2, t3, f1, f2, f3) ==
         RMul(f2, RDiv(RAdd(RSub(t2, t1), RSub(t2, t3)), RMul(RSub(t2, t1), RSub(t2, t3)))),
         RMul(f3, RDiv(RSub(t2, t1), RMul(RSub(t3, t1), RSub(t3, t2)))))
 
-CvAt(x, k, v) == PolyEval(x.cvtab[k], RSub(v, RInt(x.vref)))
-DsDvAt(x, k, v) == PolyEval(PolyD(x.stab[k]), RSub(v, RInt(x.vref)))
-
 -----------------------------------------------------------------------------
 NoPV == [sign |-> 0, unit |-> UOne]
 UnknownPar == [E0 |-> <<0, 0>>, B0 |-> <<0, 0>>, Bp |-> <<0, 0>>, V0 |-> <<0, 0>>]   \* not a rational: equals no parameter set
 InitWith(x) ==
   /\ pc = "choose" /\ inp = x
-  /\ elpv = NoPV /\ bm = <<>> /\ numElems = 0 /\ rows = <<>> /\ fitted = <<>>
-  /\ vol = <<>> /\ gibbs = <<>> /\ bulk = <<>> /\ beta = <<>> /\ cp = <<>> /\ cpfit = <<>> /\ gru = <<>>
+  /\ elpv = NoPV /\ bm = <<>> /\ numElems = 0 /\ rows = <<>> /\ kept = <<>> /\ fitted = <<>>
+  /\ vol = <<>> /\ gibbs = <<>> /\ bulk = <<>> /\ beta = <<>> /\ cp = <<>> /\ cpfit = <<>> /\ dsdv = <<>> /\ gru = <<>>
   /\ len = 0 /\ status = "running"
 Init == \E x \in Inputs : InitWith(x)
 
-(* BulkModulus.__init__ and QHA.__init__: electronic energies += V P / EVAngstromToGPa *)
-(* (numpy broadcasting along the volume axis for both shapes) *)
+Refuse == status' = "refused" /\ pc' = "done"
+
+(* BulkModulus.__init__ and QHA.__init__: electronic energies (converted to double, *)
+(* whatever number type came in) += V P / EVAngstromToGPa, broadcast along the     *)
+(* volume axis for both shapes                                                     *)
 AddPV ==
   /\ pc = "choose"
   /\ elpv' = IF PressureActs(inp) THEN [sign |-> 1, unit |-> CodePVUnit] ELSE NoPV
   /\ pc' = "bulkmodulus"
-  /\ UNCHANGED <<inp, bm, numElems, rows, fitted, vol, gibbs, bulk, beta, cp, cpfit, gru, len, status>>
+  /\ UNCHANGED <<inp, bm, numElems, rows, kept, fitted, vol, gibbs, bulk, beta, cp, cpfit, dsdv, gru, len, status>>
 
-(* BulkModulus: one fit (shape V) or one per row (shape TV) of the electronic energies *)
+(* BulkModulus: one fit (shape V) or one per row (shape TV) of the electronic energies; *)
+(* any failing fit is an error (TypeError is re-raised as RuntimeError there)           *)
 BulkModulusFit ==
   /\ pc = "bulkmodulus"
   /\ LET r(j) == [el |-> j, pvsign |-> elpv.sign, pvunit |-> elpv.unit]
-     IN  bm' = Force([j \in 1..Len(inp.qtab) |-> ElCurve(inp, r(j))])
-  /\ pc' = "numelems"
-  /\ UNCHANGED <<inp, elpv, numElems, rows, fitted, vol, gibbs, bulk, beta, cp, cpfit, gru, len, status>>
+     IN  IF \E j \in 1..Len(inp.qtab) : inp.bmplan[j] # "ok"
+           THEN Refuse /\ bm' = bm
+           ELSE /\ bm' = Force([j \in 1..Len(inp.qtab) |-> ElCurve(inp, r(j))])
+                /\ pc' = "validate" /\ status' = status
+  /\ UNCHANGED <<inp, elpv, numElems, rows, kept, fitted, vol, gibbs, bulk, beta, cp, cpfit, dsdv, gru, len>>
+
+(* QHA.__init__ (repaired): temperatures strictly ascending, at least 5 distinct volumes *)
+Validate ==
+  /\ pc = "validate"
+  /\ IF Ascending(inp) /\ inp.nvd >= 5 THEN pc' = "numelems" /\ status' = status ELSE Refuse
+  /\ UNCHANGED <<inp, elpv, bm, numElems, rows, kept, fitted, vol, gibbs, bulk, beta, cp, cpfit, dsdv, gru, len>>
 
 (* QHA.run: num_elems = _get_num_elems() + 1, minus one if beyond the grid *)
 NumElems ==
@@ -135,66 +172,83 @@ NumElems ==
          n1 == n0 + 1
      IN  numElems' = IF n1 > NT(inp) THEN n1 - 1 ELSE n1
   /\ pc' = "fit"
-  /\ UNCHANGED <<inp, elpv, bm, rows, fitted, vol, gibbs, bulk, beta, cp, cpfit, gru, len, status>>
+  /\ UNCHANGED <<inp, elpv, bm, rows, kept, fitted, vol, gibbs, bulk, beta, cp, cpfit, dsdv, gru, len, status>>
 
-(* one pass of the temperature loop of QHA.run *)
+(* one pass of the temperature loop of QHA.run.  The start values of the fit are   *)
+(* derived from the row itself, never from another temperature.                    *)
 FitAt ==
   /\ pc = "fit" /\ Len(rows) < numElems
   /\ LET i == Len(rows) + 1
          r == [ph |-> i, phunit |-> CodePhUnit, el |-> EIdx(inp, i), pvsign |-> elpv.sign, pvunit |-> elpv.unit]
          c == RowCurve(inp, r)
-     IN  /\ rows' = Append(rows, r)
-         /\ IF c = 0 THEN status' = "fitfail" /\ pc' = "done" /\ fitted' = fitted
-            ELSE status' = status /\ pc' = pc /\ fitted' = Append(fitted, inp.ptab[c])
-  /\ UNCHANGED <<inp, elpv, bm, numElems, vol, gibbs, bulk, beta, cp, cpfit, gru, len>>
+         plan == inp.fitplan[i]
+     IN  IF inp.shape = "TV" /\ i > Len(inp.qtab)                 \* no electronic row for this temperature
+           THEN Refuse /\ UNCHANGED <<rows, kept, fitted>>
+         ELSE IF plan \in {"nonconv", "runtimeerror"}              \* reported as an error
+           THEN Refuse /\ rows' = Append(rows, r) /\ UNCHANGED <<kept, fitted>>
+         ELSE IF plan = "typeerror"                                \* reported on stdout, temperature dropped
+           THEN rows' = Append(rows, r) /\ UNCHANGED <<kept, fitted, pc, status>>
+         ELSE IF c = 0
+           THEN status' = "fitfail" /\ pc' = "done" /\ rows' = Append(rows, r) /\ UNCHANGED <<kept, fitted>>
+         ELSE /\ rows' = Append(rows, r) /\ kept' = Append(kept, i) /\ fitted' = Append(fitted, inp.ptab[c])
+              /\ UNCHANGED <<pc, status>>
+  /\ UNCHANGED <<inp, elpv, bm, numElems, vol, gibbs, bulk, beta, cp, cpfit, dsdv, gru, len>>
 
+(* the arrays of the surviving temperatures; num_elems becomes their number *)
 Extract ==
   /\ pc = "fit" /\ Len(rows) = numElems
-  /\ vol' = [k \in 1..numElems |-> fitted[k].V0]
-  /\ gibbs' = [k \in 1..numElems |-> fitted[k].E0]
-  /\ bulk' = [k \in 1..numElems |-> fitted[k].B0]
-  /\ pc' = "beta"
-  /\ UNCHANGED <<inp, elpv, bm, numElems, rows, fitted, beta, cp, cpfit, gru, len, status>>
+  /\ IF kept = <<>>
+       THEN Refuse /\ UNCHANGED <<vol, gibbs, bulk, numElems>>
+       ELSE /\ vol' = [k \in 1..Len(kept) |-> fitted[k].V0]
+            /\ gibbs' = [k \in 1..Len(kept) |-> fitted[k].E0]
+            /\ bulk' = [k \in 1..Len(kept) |-> fitted[k].B0]
+            /\ numElems' = Len(kept)
+            /\ pc' = "beta" /\ status' = status
+  /\ UNCHANGED <<inp, elpv, bm, rows, kept, fitted, beta, cp, cpfit, dsdv, gru, len>>
+
+TK(k) == TT(inp, kept[k])      \* temperature of the k-th surviving point
+NB == IF numElems >= 2 THEN numElems - 1 ELSE 1
 
 (* _set_thermal_expansion *)
 SetThermalExpansion ==
   /\ pc = "beta"
-  /\ beta' = Force([k \in 1..(IF numElems >= 2 THEN numElems - 1 ELSE 1) |->
+  /\ beta' = Force([k \in 1..NB |->
                IF k = 1 THEN R0
-               ELSE RDiv(RDiv(RSub(vol[k + 1], vol[k - 1]), RSub(TT(inp, k + 1), TT(inp, k - 1))), vol[k])])
+               ELSE RDiv(RDiv(RSub(vol[k + 1], vol[k - 1]), RSub(TK(k + 1), TK(k - 1))), vol[k])])
   /\ pc' = "cp"
-  /\ UNCHANGED <<inp, elpv, bm, numElems, rows, fitted, vol, gibbs, bulk, cp, cpfit, gru, len, status>>
+  /\ UNCHANGED <<inp, elpv, bm, numElems, rows, kept, fitted, vol, gibbs, bulk, cp, cpfit, dsdv, gru, len, status>>
 
 (* _set_heat_capacity_P_numerical: -T * 2 a of the parabola through three points of G *)
 SetCpNumerical ==
   /\ pc = "cp"
-  /\ cp' = Force([k \in 1..(IF numElems >= 2 THEN numElems - 1 ELSE 1) |->
+  /\ cp' = Force([k \in 1..NB |->
              IF k = 1 THEN R0
-             ELSE RNeg(RMul(TT(inp, k), RMul(RInt(2),
-                    ParabolaA(TT(inp, k - 1), TT(inp, k), TT(inp, k + 1), gibbs[k - 1], gibbs[k], gibbs[k + 1]))))])
+             ELSE RNeg(RMul(TK(k), RMul(RInt(2),
+                    ParabolaA(TK(k - 1), TK(k), TK(k + 1), gibbs[k - 1], gibbs[k], gibbs[k + 1]))))])
   /\ pc' = "cpfit"
-  /\ UNCHANGED <<inp, elpv, bm, numElems, rows, fitted, vol, gibbs, bulk, beta, cpfit, gru, len, status>>
+  /\ UNCHANGED <<inp, elpv, bm, numElems, rows, kept, fitted, vol, gibbs, bulk, beta, cpfit, dsdv, gru, len, status>>
 
-(* _set_heat_capacity_P_polyfit: C_V(V_eq) + T dV/dT dS/dV *)
+(* _set_heat_capacity_P_polyfit: C_V(V_eq) + T dV/dT dS/dV, C_V and S of the SAME temperature *)
 SetCpPolyfit ==
   /\ pc = "cpfit"
-  /\ cpfit' = Force([k \in 1..(IF numElems >= 2 THEN numElems - 1 ELSE 1) |->
+  /\ dsdv' = Force([k \in 1..NB |-> IF k = 1 THEN R0 ELSE DsDvAt(inp, kept[k], vol[k])])
+  /\ cpfit' = Force([k \in 1..NB |->
                 IF k = 1 THEN R0
-                ELSE RAdd(CvAt(inp, k, vol[k]),
-                          RMul3(TT(inp, k),
-                                ParabolaDMid(TT(inp, k - 1), TT(inp, k), TT(inp, k + 1), vol[k - 1], vol[k], vol[k + 1]),
-                                DsDvAt(inp, k, vol[k])))])
+                ELSE RAdd(CvAt(inp, kept[k], vol[k]),
+                          RMul3(TK(k),
+                                ParabolaDMid(TK(k - 1), TK(k), TK(k + 1), vol[k - 1], vol[k], vol[k + 1]),
+                                DsDvAt(inp, kept[k], vol[k])))])
   /\ pc' = "gru"
-  /\ UNCHANGED <<inp, elpv, bm, numElems, rows, fitted, vol, gibbs, bulk, beta, cp, gru, len, status>>
+  /\ UNCHANGED <<inp, elpv, bm, numElems, rows, kept, fitted, vol, gibbs, bulk, beta, cp, gru, len, status>>
 
-(* _set_gruneisen_parameter: beta K_T / (C_V / V)  (inputs keep C_V well above the 1e-10 cutoff) *)
+(* _set_gruneisen_parameter: beta K_T / (C_V / V); 0 below the heat-capacity cutoff *)
 SetGruneisen ==
   /\ pc = "gru"
   /\ gru' = Force([k \in 1..Len(beta) |->
-              IF k = 1 THEN R0
-              ELSE RDiv(RMul(beta[k], bulk[k]), RDiv(CvAt(inp, k, vol[k]), vol[k]))])
+              IF k = 1 \/ RLe(CvAt(inp, kept[k], vol[k]), R0) THEN R0
+              ELSE RDiv(RMul(beta[k], bulk[k]), RDiv(CvAt(inp, kept[k], vol[k]), vol[k]))])
   /\ pc' = "len"
-  /\ UNCHANGED <<inp, elpv, bm, numElems, rows, fitted, vol, gibbs, bulk, beta, cp, cpfit, len, status>>
+  /\ UNCHANGED <<inp, elpv, bm, numElems, rows, kept, fitted, vol, gibbs, bulk, beta, cp, cpfit, dsdv, len, status>>
 
 (* self._len = len(thermal_expansions); assert self._len + 1 == self._num_elems *)
 SetLen ==
@@ -202,9 +256,9 @@ SetLen ==
   /\ len' = Len(beta)
   /\ status' = IF Len(beta) + 1 = numElems THEN "ok" ELSE "assert"
   /\ pc' = "done"
-  /\ UNCHANGED <<inp, elpv, bm, numElems, rows, fitted, vol, gibbs, bulk, beta, cp, cpfit, gru>>
+  /\ UNCHANGED <<inp, elpv, bm, numElems, rows, kept, fitted, vol, gibbs, bulk, beta, cp, cpfit, dsdv, gru>>
 
-Next == AddPV \/ BulkModulusFit \/ NumElems \/ FitAt \/ Extract \/ SetThermalExpansion
+Next == AddPV \/ BulkModulusFit \/ Validate \/ NumElems \/ FitAt \/ Extract \/ SetThermalExpansion
         \/ SetCpNumerical \/ SetCpPolyfit \/ SetGruneisen \/ SetLen
 Spec == Init /\ [][Next]_vars
 
@@ -213,72 +267,141 @@ Cut(s, n) == SubSeq(s, 1, IF n < Len(s) THEN n ELSE Len(s))
 (* heat_capacity_P_polyfit raises NotImplementedError for shape "TV" *)
 CpfitAvail(x) == x.shape = "V"
 BmPar(x, b) == [j \in 1..Len(b) |-> IF b[j] \in 1..Len(x.qtab) THEN x.qtab[b[j]] ELSE UnknownPar]
-Out == [len |-> len, status |-> status, bm |-> bm, bmpar |-> BmPar(inp, bm),
-        rows |-> Cut(rows, len), vol |-> Cut(vol, len), gibbs |-> Cut(gibbs, len), bulk |-> Cut(bulk, len),
-        beta |-> Cut(beta, len), cp |-> Cut(cp, len),
-        cpfit |-> IF CpfitAvail(inp) THEN Cut(cpfit, len) ELSE <<>>, gru |-> Cut(gru, len)]
+KeptRows == [k \in 1..Len(kept) |-> rows[kept[k]]]
+
+(* write_... methods: one line "T value" per returned temperature, with these C formats *)
+FileSpecs ==
+  <<[file |-> "volume-temperature.dat", attr |-> "vol", tw |-> 25, tp |-> 15, vw |-> 25, vp |-> 15],
+    [file |-> "thermal_expansion.dat", attr |-> "beta", tw |-> 25, tp |-> 15, vw |-> 25, vp |-> 15],
+    [file |-> "gibbs-temperature.dat", attr |-> "gibbs", tw |-> 20, tp |-> 15, vw |-> 25, vp |-> 15],
+    [file |-> "bulk_modulus-temperature.dat", attr |-> "bulk", tw |-> 20, tp |-> 15, vw |-> 25, vp |-> 15],
+    [file |-> "Cp-temperature.dat", attr |-> "cp", tw |-> 20, tp |-> 15, vw |-> 20, vp |-> 15],
+    [file |-> "Cp-temperature_polyfit.dat", attr |-> "cpfitfile", tw |-> 20, tp |-> 15, vw |-> 20, vp |-> 15],
+    [file |-> "dsdv-temperature.dat", attr |-> "dsdv", tw |-> 20, tp |-> 15, vw |-> 20, vp |-> 15],
+    [file |-> "gruneisen-temperature.dat", attr |-> "gru", tw |-> 20, tp |-> 15, vw |-> 25, vp |-> 15]>>
+(* the writers print the internal tables (the polyfit writer also for shape "TV") *)
+TableOf(a) == CASE a = "vol" -> vol [] a = "beta" -> beta [] a = "gibbs" -> gibbs [] a = "bulk" -> bulk
+                [] a = "cp" -> cp [] a = "cpfitfile" -> cpfit [] a = "dsdv" -> dsdv [] a = "gru" -> gru
+OutFiles ==
+  [i \in 1..Len(FileSpecs) |->
+     [attr |-> FileSpecs[i].attr, fmtok |-> TRUE,
+      trows |-> [k \in 1..len |-> <<TT(inp, kept[k]), TableOf(FileSpecs[i].attr)[k]>>]]]
+Ok == status = "ok"
+Out == [len |-> IF Ok THEN len ELSE 0, status |-> status,
+        bm |-> bm, bmpar |-> BmPar(inp, bm),
+        rows |-> IF Ok THEN Cut(KeptRows, len) ELSE <<>>,
+        vol |-> IF Ok THEN Cut(vol, len) ELSE <<>>, gibbs |-> IF Ok THEN Cut(gibbs, len) ELSE <<>>,
+        bulk |-> IF Ok THEN Cut(bulk, len) ELSE <<>>, beta |-> IF Ok THEN Cut(beta, len) ELSE <<>>,
+        cp |-> IF Ok THEN Cut(cp, len) ELSE <<>>,
+        cpfit |-> IF Ok /\ CpfitAvail(inp) THEN Cut(cpfit, len) ELSE <<>>,
+        gru |-> IF Ok THEN Cut(gru, len) ELSE <<>>,
+        files |-> IF Ok /\ inp.wf THEN OutFiles ELSE <<>>]
 
 -----------------------------------------------------------------------------
 (* THE REQUIREMENT, on any result record o (the machine's Out or one         *)
 (* projected from the implementation) for input x.                           *)
 
-(* every returned table has the same length; it reaches the grid temperature *)
-(* nearest to t_max (any of two equally near ones), or the last temperature  *)
-(* that still has a right neighbour for the central differences             *)
+(* what must be refused; what must complete *)
+ReqRefuses(x, o) == (~Ascending(x) \/ x.nvd < 4) => o.status # "ok"
+(* fewer than 5 distinct volumes: no silent polynomial fit of degree 4 either *)
+ReqRefusesPolyfit(x, o) == x.nvd < 5 => o.status # "ok"
+ReqCompletes(x, o) == (ValidInput(x) /\ AllFitsOk(x) /\ NT(x) >= 2) => o.status = "ok"
+
+(* original temperature index of each returned row *)
+Tidx(o) == [k \in 1..Len(o.rows) |-> o.rows[k].ph]
+(* temperatures attempted for an admissible choice n of the number of points: the  *)
+(* grid temperature nearest to t_max (any of two equally near ones) plus one, or    *)
+(* all; the ones whose fit the environment let converge; all but the last of them   *)
+(* are returned (the last only serves the central differences)                      *)
 Nearest(x) == {k \in 1..NT(x) : \A m \in 1..NT(x) : IAbs(x.T[k] - x.tmax.v) <= IAbs(x.T[m] - x.tmax.v)}
+AdmissibleN(x) == {IF t + 1 > NT(x) THEN NT(x) ELSE t + 1 : t \in (IF x.tmax.set THEN Nearest(x) ELSE {NT(x)})}
+RECURSIVE OkIn(_, _, _)
+OkIn(x, n, i) == IF i > n THEN <<>>
+                 ELSE IF x.fitplan[i] = "ok" THEN <<i>> \o OkIn(x, n, i + 1) ELSE OkIn(x, n, i + 1)
+AllButLast(s) == SubSeq(s, 1, Len(s) - 1)
+(* the surviving temperatures (with the last one) that explain the returned rows; <<>> if none does *)
+KeptFor(x, o) ==
+  LET cands == {n \in AdmissibleN(x) : AllButLast(OkIn(x, n, 1)) = Tidx(o)}
+  IN  IF cands = {} THEN <<>> ELSE OkIn(x, CHOOSE n \in cands : TRUE, 1)
 ReqLength(x, o) ==
-  /\ o.len >= 1 /\ o.len <= NT(x) - 1
-  /\ IF x.tmax.set /\ \E k \in Nearest(x) : k <= NT(x) - 1
-       THEN o.len \in Nearest(x)
-       ELSE o.len = NT(x) - 1
+  /\ o.len >= 1
+  /\ KeptFor(x, o) # <<>>
   /\ Len(o.rows) = o.len /\ Len(o.vol) = o.len /\ Len(o.gibbs) = o.len /\ Len(o.bulk) = o.len
   /\ Len(o.beta) = o.len /\ Len(o.cp) = o.len /\ Len(o.gru) = o.len
   /\ CpfitAvail(x) => Len(o.cpfit) = o.len
-ReqCompletes(x, o) == NT(x) >= 2 => o.status = "ok"
+(* a fit that failed is never silently replaced: the run is an error, or the        *)
+(* temperature does not appear in the result                                        *)
+ReqFailedFitReported(x, o) ==
+  /\ (\E j \in 1..Len(x.bmplan) : x.bmplan[j] # "ok") => o.status # "ok"
+  /\ o.status = "ok" => \A k \in 1..Len(o.rows) : o.rows[k].ph \in 1..NT(x) /\ x.fitplan[o.rows[k].ph] = "ok"
 
-(* the row fitted at temperature k is phonon row k + electronic row of the SAME *)
+(* the row fitted for temperature t is phonon row t + electronic row of the SAME *)
 (* temperature (or the single one) *)
 ReqPerTemperatureElectronic(x, o) ==
-  \A k \in 1..Len(o.rows) : o.rows[k].ph = k /\ o.rows[k].el = EIdx(x, k)
+  \A k \in 1..Len(o.rows) : o.rows[k].el = EIdx(x, o.rows[k].ph)
 ReqPhononUnit(x, o) == \A k \in 1..Len(o.rows) : o.rows[k].phunit = ReqPhUnit
 (* pressure enters as + P V, converted GPa A^3 -> eV *)
 ReqPressureSign(x, o) == \A k \in 1..Len(o.rows) : PVMatches(x, o.rows[k])
 ReqNoSpuriousPV(x, o) == ~PressureActs(x) => \A k \in 1..Len(o.rows) : o.rows[k].pvsign = 0
-(* recovery of the known parameters at each temperature *)
-ReqRecoverVolume(x, o) == \A k \in 1..Len(o.vol) : o.vol[k] = x.ptab[k].V0
-ReqRecoverGibbs(x, o) == \A k \in 1..Len(o.gibbs) : o.gibbs[k] = x.ptab[k].E0
-ReqRecoverBulk(x, o) == \A k \in 1..Len(o.bulk) : o.bulk[k] = x.ptab[k].B0
-(* electronic-only bulk modulus object: one curve (V) / one per temperature (TV) *)
+(* recovery of the known parameters at each returned temperature *)
+PT(x, o, k) == x.ptab[o.rows[k].ph]
+InRange(x, o) == \A k \in 1..Len(o.rows) : o.rows[k].ph \in 1..NT(x)
+ReqRecoverVolume(x, o) == InRange(x, o) /\ Len(o.vol) = Len(o.rows) /\ \A k \in 1..Len(o.vol) : o.vol[k] = PT(x, o, k).V0
+ReqRecoverGibbs(x, o) == InRange(x, o) /\ Len(o.gibbs) = Len(o.rows) /\ \A k \in 1..Len(o.gibbs) : o.gibbs[k] = PT(x, o, k).E0
+ReqRecoverBulk(x, o) == InRange(x, o) /\ Len(o.bulk) = Len(o.rows) /\ \A k \in 1..Len(o.bulk) : o.bulk[k] = PT(x, o, k).B0
+(* electronic-only bulk modulus object: one curve (V) / one per row (TV) *)
 ReqBulkModulusObject(x, o) ==
-  /\ Len(o.bm) = Len(x.qtab) /\ \A j \in 1..Len(o.bm) : o.bm[j] = j
-  /\ Len(o.bmpar) = Len(x.qtab) /\ \A j \in 1..Len(o.bmpar) : o.bmpar[j] = x.qtab[j]
+  x.elcurve =>
+    /\ Len(o.bm) = Len(x.qtab) /\ \A j \in 1..Len(o.bm) : o.bm[j] = j
+    /\ Len(o.bmpar) = Len(x.qtab) /\ \A j \in 1..Len(o.bmpar) : o.bmpar[j] = x.qtab[j]
 
 (* finite differences, from the definition of the derivative of the generating *)
 (* polynomials: a central difference is exact for degree <= 1 on any grid and  *)
 (* for degree <= 2 on a locally uniform grid; a three-point parabola is exact  *)
 (* for degree <= 2 on any grid and for degree <= 3 (second derivative) on a    *)
-(* locally uniform grid                                                        *)
-Uniform(x, k) == x.T[k + 1] - x.T[k] = x.T[k] - x.T[k - 1]
-DV(x, k) == PolyEval(PolyD(x.poly.v), TT(x, k))
-D2E(x, k) == PolyEval(PolyD(PolyD(x.poly.e)), TT(x, k))
-BetaExact(x, k) == x.poly.set /\ (Degree(x.poly.v) <= 1 \/ (Degree(x.poly.v) <= 2 /\ Uniform(x, k)))
+(* locally uniform grid.  K: surviving temperature indices, K[k] the k-th.     *)
+Uniform(x, K, k) == x.T[K[k + 1]] - x.T[K[k]] = x.T[K[k]] - x.T[K[k - 1]]
+DV(x, i) == PolyEval(PolyD(x.poly.v), TT(x, i))
+D2E(x, i) == PolyEval(PolyD(PolyD(x.poly.e)), TT(x, i))
+BetaExact(x, K, k) == x.poly.set /\ (Degree(x.poly.v) <= 1 \/ (Degree(x.poly.v) <= 2 /\ Uniform(x, K, k)))
 ReqThermalExpansion(x, o) ==
-  \A k \in 2..Len(o.beta) : BetaExact(x, k) => RMul(o.beta[k], x.ptab[k].V0) = DV(x, k)
+  LET K == KeptFor(x, o) IN
+  K # <<>> => \A k \in 2..Len(o.beta) : BetaExact(x, K, k) => RMul(o.beta[k], x.ptab[K[k]].V0) = DV(x, K[k])
 ReqHeatCapacity(x, o) ==
-  \A k \in 2..Len(o.cp) :
-    (x.poly.set /\ (Degree(x.poly.e) <= 2 \/ (Degree(x.poly.e) <= 3 /\ Uniform(x, k))))
-      => o.cp[k] = RNeg(RMul(TT(x, k), D2E(x, k)))
+  LET K == KeptFor(x, o) IN
+  K # <<>> => \A k \in 2..Len(o.cp) :
+    (x.poly.set /\ (Degree(x.poly.e) <= 2 \/ (Degree(x.poly.e) <= 3 /\ Uniform(x, K, k))))
+      => o.cp[k] = RNeg(RMul(TT(x, K[k]), D2E(x, K[k])))
 ReqHeatCapacityPolyfit(x, o) ==
-  \A k \in 2..Len(o.cpfit) :
+  LET K == KeptFor(x, o) IN
+  K # <<>> => \A k \in 2..Len(o.cpfit) :
     (x.poly.set /\ Degree(x.poly.v) <= 2)
-      => o.cpfit[k] = RAdd(CvAt(x, k, x.ptab[k].V0), RMul3(TT(x, k), DV(x, k), DsDvAt(x, k, x.ptab[k].V0)))
-(* gamma = V beta K_T / C_V *)
+      => o.cpfit[k] = RAdd(CvAt(x, K[k], x.ptab[K[k]].V0),
+                           RMul3(TT(x, K[k]), DV(x, K[k]), DsDvAt(x, K[k], x.ptab[K[k]].V0)))
+(* gamma = V beta K_T / C_V; reported as 0 where C_V vanishes *)
 ReqGruneisen(x, o) ==
-  \A k \in 2..Len(o.gru) :
-    BetaExact(x, k) => RMul(o.gru[k], CvAt(x, k, x.ptab[k].V0)) = RMul(DV(x, k), x.ptab[k].B0)
+  LET K == KeptFor(x, o) IN
+  K # <<>> => \A k \in 2..Len(o.gru) :
+    LET c == CvAt(x, K[k], x.ptab[K[k]].V0) IN
+    IF RLe(c, R0) THEN o.gru[k] = R0
+    ELSE BetaExact(x, K, k) => RMul(o.gru[k], c) = RMul(DV(x, K[k]), x.ptab[K[k]].B0)
+(* files equal the attributes at printed precision (f.fmtok: the line is the C format of   *)
+(* FileSpecs applied to the attribute value, character by character), one line per          *)
+(* returned temperature, with that temperature                                               *)
+AttrOf(o, a) == CASE a = "vol" -> o.vol [] a = "beta" -> o.beta [] a = "gibbs" -> o.gibbs [] a = "bulk" -> o.bulk
+                  [] a = "cp" -> o.cp [] a = "gru" -> o.gru [] a = "cpfitfile" -> o.cpfit
+PublicAttr(x, a) == a \in {"vol", "beta", "gibbs", "bulk", "cp", "gru"} \/ (a = "cpfitfile" /\ CpfitAvail(x))
+ReqFiles(x, o) ==
+  \A i \in 1..Len(o.files) :
+    LET f == o.files[i] IN
+    /\ Len(f.trows) = o.len
+    /\ \A k \in 1..Len(f.trows) : k <= Len(o.rows) => f.trows[k][1] = TT(x, o.rows[k].ph)
+    /\ PublicAttr(x, f.attr) =>
+          /\ f.fmtok
+          /\ \A k \in 1..Len(f.trows) : k <= Len(AttrOf(o, f.attr)) => f.trows[k][2] = AttrOf(o, f.attr)[k]
 ReqUnits ==
   /\ CodePVUnit = ReqPVUnit /\ CodePhUnit = ReqPhUnit /\ CodeBulkUnit = ReqBulkUnit
-  /\ CodeCpUnit = ReqCpUnit /\ CodeGruUnit = ReqGruUnit
+  /\ CodeCpUnit = ReqCpUnit /\ CodeGruUnit = ReqGruUnit /\ CodeDsdvUnit = ReqDsdvUnit
 
 -----------------------------------------------------------------------------
 (* invariants of the machine *)
@@ -287,21 +410,25 @@ Done == AtEnd /\ status = "ok"
 TypeOK == pc = "choose" => TypeInput(inp)
 (* every index the loops and stencils touch exists *)
 InvIndexSafety ==
-  /\ pc \in {"fit", "beta", "cp", "cpfit", "gru", "len", "done"} => numElems \in 1..NT(inp)
+  /\ pc \in {"fit", "beta", "cp", "cpfit", "gru", "len"} => numElems \in 1..NT(inp)
+  /\ pc = "fit" => \A k \in 1..Len(rows) : rows[k].el \in 1..Len(inp.qtab)
   /\ pc \in {"beta", "cp", "cpfit"} =>
-        /\ Len(vol) = numElems /\ Len(gibbs) = numElems
-        /\ \A k \in 2..(numElems - 1) : k + 1 <= Len(vol) /\ k + 1 <= NT(inp) /\ k <= Len(inp.cvtab)
+        /\ Len(vol) = numElems /\ Len(gibbs) = numElems /\ Len(kept) = numElems
+        /\ \A k \in 2..(numElems - 1) : k + 1 <= Len(vol) /\ kept[k + 1] <= NT(inp) /\ kept[k] <= Len(inp.cvtab)
+InvRefuses == AtEnd => ReqRefuses(inp, Out) /\ ReqRefusesPolyfit(inp, Out)
 InvCompletes == AtEnd => ReqCompletes(inp, Out)
+InvFailedFitReported == AtEnd => ReqFailedFitReported(inp, Out)
 InvLength == Done => ReqLength(inp, Out)
 InvPerTemperatureElectronic == Done => ReqPerTemperatureElectronic(inp, Out)
 InvPhononUnit == Done => ReqPhononUnit(inp, Out)
 InvPressureSign == Done => ReqPressureSign(inp, Out) /\ ReqNoSpuriousPV(inp, Out)
 InvRecovery == Done => ReqRecoverVolume(inp, Out) /\ ReqRecoverGibbs(inp, Out) /\ ReqRecoverBulk(inp, Out)
-InvBulkModulusObject == AtEnd => ReqBulkModulusObject(inp, Out)
+InvBulkModulusObject == Done => ReqBulkModulusObject(inp, Out)
 InvThermalExpansion == Done => ReqThermalExpansion(inp, Out)
 InvHeatCapacity == Done => ReqHeatCapacity(inp, Out)
 InvHeatCapacityPolyfit == Done => ReqHeatCapacityPolyfit(inp, Out)
 InvGruneisen == Done => ReqGruneisen(inp, Out)
+InvFiles == Done => ReqFiles(inp, Out)
 InvUnits == ReqUnits
 (* hands the expected tables of every input to the harness (replay direction) *)
 Emit == AtEnd => PrintT(<<"OUT", inp.id, Out>>)
